@@ -78,7 +78,10 @@ class PWM(PoupoolActor):
             if self.__state:
                 self.__security_duration.update(datetime.now())
                 security_ok = not self.__security_duration.elapsed()
-                if (self.__duration >= duty_on and duty_on != self.period) or not security_ok:
+                # A running pulse is never shorter than min_runtime, even if the duty was lowered in
+                # the meantime (avoid short commutations)
+                done = self.__duration >= duty_on and self.__duration >= self.__min_runtime
+                if (done and duty_on != self.period) or not security_ok:
                     self.__duration = 0
                     self.__state = False
                     self.__pump.off()
